@@ -216,7 +216,8 @@ def match_known(pid, line, msg, known):
         if k.get("status") != "known" or k.get("property") != pid:
             continue
         pat = k.get("line_regex")
-        if pat and re.search(pat, line or ""):
+        mpat = k.get("msg_regex")     # optional: the failure message must match too (same line class, different failure: still reported)
+        if pat and re.search(pat, line or "") and (not mpat or re.search(mpat, msg or "")):
             return k
     return None
 
